@@ -1,11 +1,15 @@
 import Driver.Util
 import Driver.Filter
+import Driver.Render
+import Driver.Tok
 namespace Driver
 
 def handle (line : String) : String :=
   match (line.trimAscii.toString.splitOn " ") with
   | "util" :: rest => handleUtil rest
   | "filter" :: rest => handleFilter rest
+  | "render" :: rest => handleRender rest
+  | "tok" :: rest => handleTok rest
   | _ => bad
 
 partial def loop (hin hout : IO.FS.Stream) : IO Unit := do
